@@ -812,15 +812,20 @@ class _ExecutorManagerThread(threading.Thread):
                     executor is not None
                     and len(self.processes) < executor._max_workers
                 ):
-                    warnings.warn(
-                        "A worker stopped while some jobs were given to the "
-                        "executor. This can be caused by a too short worker "
-                        "timeout or by a memory leak.",
-                        UserWarning,
-                    )
                     with executor._processes_management_lock:
                         executor._adjust_process_count()
                     executor = None
+                    try:
+                        warnings.warn(
+                            "A worker stopped while some jobs were given to "
+                            "the executor. This can be caused by a too short "
+                            "worker timeout or by a memory leak.",
+                            UserWarning,
+                        )
+                    except UserWarning as e:
+                        # Warnings can be turned into errors (-W error): this
+                        # thread has to survive to complete the pending jobs.
+                        mp.util.info(f"{e}")
         else:
             # Received a _ResultItem so mark the future as completed.
             work_item = self.pending_work_items.pop(result_item.work_id, None)
